@@ -124,6 +124,12 @@ PROPS["C04"] = {
         ("R-FIT-MAP", rs2.rule_fit_map, {}),
         ("R-INTO-IDENTITY", rp2.rule_into_identity, {}),
         ("R-NO-HISTORY", rp2.rule_no_history, {}),
+        # coherence of the final state (C-hat optimal for alpha-hat, residuals = W(Y - Phi C)) is the
+        # per-update coherence of C01/C02, in both flavours
+        ("R-COEF-SOLVE", rp.rule_coef_solve, {}),
+        ("R-RESID-TERM", rp.rule_resid_term, {}),
+        ("R-PURE-PROJECTION", rp.rule_pure_projection, {}),
+        ("R-SIBLING", rp2.rule_sibling, {"configs": ("parallel",)}),
     ],
     "explanation": "fit(): minimize is called on the caller-configured solver with the caller's problem; Ok and Err carry the same FitResult built from the optimizer's final problem "
                    "(all five roles moved unchanged) and report; Ok is reachable only on the successful edge of TerminationReason::was_successful and Err only on the other; "
@@ -137,8 +143,10 @@ PROPS["C06"] = {
         ("R-ROW-SCALING", rp2.rule_row_scaling, {}),
         ("R-DATA-WEIGHT-ONCE", rp2.rule_data_weight_once, {}),
         ("R-CTOR-SIBLINGS", rp2.rule_ctor_siblings, {}),
+        ("R-SETTER-FRAME", rp2.rule_setter_frame, {}),
         ("R-KAUFMAN-COL", rp2.rule_kaufman_col, {}),
         ("R-COEF-SOLVE", rp.rule_coef_solve, {}),
+        ("R-RESID-TERM", rp.rule_resid_term, {}),
     ],
     "explanation": "Every multiplication by weights in the crate uses the single weights role (problem / builder / statistics argument) and is applied to an unweighted quantity exactly once "
                    "(Y at build, Phi at every update, each D_k in the Jacobian, J and Phi*c in the statistics); default weights are Unit; Unit is the identity; Diagonal is elementwise row scaling.",
@@ -153,6 +161,10 @@ PROPS["C07"] = {
         ("R-KAUFMAN-COL", rp2.rule_kaufman_col, {}),
         ("R-RESID-TERM", rp.rule_resid_term, {}),
         ("R-PURE-PROJECTION", rp.rule_pure_projection, {}),
+        # the single- and multi-rhs builder paths are siblings: same frame behaviour, same empty builder
+        ("R-SETTER-FRAME", rp2.rule_setter_frame, {}),
+        ("R-CTOR-SIBLINGS", rp2.rule_ctor_siblings, {}),
+        ("R-COEF-SOLVE", rp.rule_coef_solve, {}),
     ],
     "explanation": "Single- and multi-right-hand-side problems share one code path (no body uses the const generics MRHS/PAR as a value); single-rhs observations are only reshaped to N x 1; "
                    "coefficients, residuals and Jacobian columns are products with the data/coefficient matrix on the right (columns never mixed) and residuals and every Jacobian column use the same column-major flattening, so block s belongs to column s.",
